@@ -86,6 +86,15 @@ def _parse_via(channel, raw):
             env = base_environ(QUERY_STRING=raw)
             app.request.__init__(env)
             return res_of(app.request.query), ''
+        if channel == 'query-after-params':
+            # the handler reads the combined view first (query + a form body that repeats some names), then the query: the
+            # query is still the query
+            fb = (parse_via.before or 'zz=1').encode('latin1')
+            env = base_environ(QUERY_STRING=raw, REQUEST_METHOD='POST', CONTENT_LENGTH=str(len(fb)), CONTENT_TYPE='application/x-www-form-urlencoded')
+            env['wsgi.input'] = io.BytesIO(fb)
+            app.request.__init__(env)
+            _p = len(app.request.params)
+            return res_of(app.request.query), ''
         body = raw.encode('latin1')
         # the media type as clients spell it: bare, with a charset parameter (jQuery, axios), other case, white space, or absent
         spell = ['application/x-www-form-urlencoded', 'application/x-www-form-urlencoded; charset=UTF-8', 'application/x-www-form-urlencoded;charset=utf-8',
@@ -165,7 +174,7 @@ def run(chk):
         keys = [''.join(chr(rng.choice(CPS)) for _ in range(rng.randint(1, 4))) for _ in range(max(1, n // 2 + 1))]
         pairs = [(rng.choice(keys), ''.join(chr(rng.choice(CPS)) for _ in range(rng.choice([0, 1, 2, 5])))) for _ in range(n)]
         raw = urlencode(pairs)
-        ch = rng.choice(['qsl', 'query', 'forms', 'params', 'forms-after-body', 'query-after-rewrite', 'forms-chunked'])
+        ch = rng.choice(['qsl', 'query', 'forms', 'params', 'forms-after-body', 'query-after-rewrite', 'forms-chunked', 'query-after-params'])
         if ch in ('forms', 'params', 'forms-after-body', 'forms-chunked') and not raw:
             ch = 'query'
         parse_via.peek = rng.choice([-1, 0, 1, 7])
